@@ -14,7 +14,12 @@ BLOCK_ORDER_INT = {None: None, 'layer_column': 0, 'dmplex': 1}
 # the printed bottoms 0.51 and -0.50 = 0.005000000000000004, printed as 0.01 by the second write
 WITNESS_CENTRE_ZERO = {'kind': 'rect', 'xb': [100.0, 100.0], 'yb': [100.0], 'zb': [10.0, 1.01, 30.0], 'conv': 0, 'atm': 2, 'case': None,
                        'bo': None, 'origin': [0.0, 0.0, 10.5051], 'ops': []}
-FIXED = [WITNESS_CENTRE_ZERO]
+# a mesh rotated by 180 degrees about the origin: coordinates like -1.2e-14 (they print as '-0.00', are re-read as -0.0
+# and must be written as '-0.00' again), mixed 3- and 4-node columns after refine, block order set and reset
+ROTATED_180 = {'kind': 'rect', 'xb': [100.0, 150.0, 200.0], 'yb': [120.0, 80.0], 'zb': [10.0, 20.0, 30.0], 'conv': 0, 'atm': 1, 'case': None,
+               'bo': None, 'origin': [0.0, 0.0, 0.0],
+               'ops': [['refine', 0.5, 7], ['rotate', 180.0], ['wells', 2, 11], ['block_order_seq', ['dmplex', None]]]}
+FIXED = [WITNESS_CENTRE_ZERO, ROTATED_180]
 
 
 # ---------------------------------------------------------------- numbers
@@ -112,7 +117,7 @@ def gen_rect(rng, big=False):
 def gen_ops(rng, recipe, ncols_hint=12):
     ops = []
     big = ncols_hint > 400
-    if rng.random() < (0.15 if big else 0.35): ops.append(['rotate', rng.choice([30.0, 90.0, -45.0, rng.uniform(-180, 180)])])
+    if rng.random() < (0.15 if big else 0.35): ops.append(['rotate', rng.choice([30.0, 90.0, -45.0, 180.0, 180.0, rng.uniform(-180, 180)])])
     if rng.random() < 0.3: ops.append(['translate', [rng.uniform(-1000, 1000), round(rng.uniform(-1000, 1000), 2), rng.choice([0.0, round(rng.uniform(-50, 50), 1)])]])
     if rng.random() < (0.1 if big else 0.3): ops.append(['refine', rng.uniform(0.05, 0.5 if ncols_hint < 100 else 0.1), rng.randint(0, 10 ** 6)])
     if rng.random() < 0.25: ops.append(['reduce', rng.uniform(0.3, 0.9), rng.randint(0, 10 ** 6)])
@@ -127,6 +132,10 @@ def gen_ops(rng, recipe, ncols_hint=12):
     if rng.random() < 0.3: ops.append(['rename_layer', rng.randint(0, 10 ** 6)])
     if rng.random() < 0.25: ops.append(['rename_column', rng.randint(0, 10 ** 6)])
     if rng.random() < 0.35: ops.append(['unit', 'FEET '])
+    # header configurations reached by REPEATED assignment: block order set, then set to something else / back to None
+    if rng.random() < 0.3:
+        ops.append(['block_order_seq', rng.choice([['dmplex', None], ['layer_column', None], ['layer_column', 'dmplex'], ['dmplex', 'layer_column'],
+                                                   ['dmplex', None, 'layer_column'], ['layer_column', None, None]])])
     if rng.random() < 0.3:
         ops.append(['header', {'vol': rng.choice([1e25, 1e30, 1.0e20, 1e50, 12345.678]), 'con': rng.choice([1e-6, 1e-5, 2.5e-7]),
                                'angle': rng.choice([0.0, 45.0, -30.5, round(rng.uniform(-180, 180), 2), rng.uniform(-90, 90)])}])
@@ -242,6 +251,10 @@ def build(recipe, repo):
                 if cand and g.num_columns >= 1: g.rename_column(r.choice(g.columnlist[:-1] or g.columnlist).name, r.choice(cand))
             elif k == 'unit': g.unit_type = op[1]
             elif k == 'block_order': g.block_order = op[1]
+            elif k == 'block_order_seq':
+                for bo in op[1]:
+                    try: g.block_order = bo
+                    except Exception: g.block_order = None          # e.g. dmplex with a 5-sided column
             elif k == 'header':
                 g.atmosphere_volume, g.atmosphere_connection, g.permeability_angle = op[1]['vol'], op[1]['con'], op[1]['angle']
         except Exception:
